@@ -129,6 +129,22 @@ func parseExclusiveRange(e *Ecosystem, rangeStr string) ([]*constraint, error) {
 	startStr := strings.TrimSpace(parts[0])
 	endStr := strings.TrimSpace(parts[1])
 
+	// One-sided exclusive ranges: (,1.0) is x < 1.0 and (1.0,) is x > 1.0
+	if startStr == "" && endStr != "" {
+		endVersion, err := e.NewVersion(endStr)
+		if err != nil {
+			return nil, fmt.Errorf("invalid end version in exclusive range: %w", err)
+		}
+		return []*constraint{{operator: "<", version: endVersion}}, nil
+	}
+	if startStr != "" && endStr == "" {
+		startVersion, err := e.NewVersion(startStr)
+		if err != nil {
+			return nil, fmt.Errorf("invalid start version in exclusive range: %w", err)
+		}
+		return []*constraint{{operator: ">", version: startVersion}}, nil
+	}
+
 	startVersion, err := e.NewVersion(startStr)
 	if err != nil {
 		return nil, fmt.Errorf("invalid start version in exclusive range: %w", err)
